@@ -418,6 +418,32 @@ def p_blockwise_T(w, E, p):
     return Prog(out.expr, p.ref.transpose((1, 0)), p.dsk)
 
 
+def _twice(a, b):
+    """user block function for blockwise(adjust_chunks=2n): the block sum, twice in a row"""
+    s_ = a + b
+    return np.concatenate([s_, s_], axis=0)
+
+
+_twice = user_kernel(_twice)
+
+
+def p_blockwise_twice(w, E, a, b):
+    """blockwise(f, 'i', a, 'i', b, 'i', adjust_chunks={'i': 2n}) over operands chunked differently (f doubles every block):
+    block j of the result is the sum over the j-th block of the unified layout, twice -- the layout the result advertises"""
+    ca, cb = w.fn(NC, "new_collection")(a.node), w.fn(NC, "new_collection")(b.node)
+    out = w.fn("dask_array.core._blockwise_funcs", "blockwise")(_twice, "i", ca, "i", cb, "i", adjust_chunks={"i": lambda n: 2 * n}, dtype="f8",
+                                                                meta=np.empty((0,)))
+    S = a.ref + b.ref
+    pos, parts = 0, []
+    for c2 in out.chunks[0]:
+        c = c2 // 2
+        parts += [S[pos:pos + c], S[pos:pos + c]]
+        pos += c
+    dsk = dict(a.dsk)
+    dsk.update(b.dsk)
+    return Prog(out.expr, concatenate_nested(parts), dsk)
+
+
 def p_arange(w, E, step, blocks):
     """arange(start, start + n*step, step) with symbolic start and chunk sizes; values are start + p*step"""
     import z3
@@ -902,6 +928,7 @@ def programs(tier):
     reg("map_blocks(first,((x[1,1,4]+y[1,4,1])[::-1])*2)", lambda w, E: p_map_first(w, E, p_elemwise(w, operator.mul, p_slice(w, _add_concrete(w, E, (1, 1, 4), (1, 4, 1)), raw_index(E, REV)), 2.0)), 3)
     reg("map_blocks(first,(x[4,8]+y[8,4])[5:12]*2)", lambda w, E: p_map_first(w, E, p_elemwise(w, operator.mul, p_slice(w, _add_concrete(w, E, (4, 8), (8, 4)), (slice(5, 12),)), 2.0)), 3)
     reg("map_blocks(first,(x[2,2,2,2,2,2]+y[1,11])[[9,7,5]]*2)", lambda w, E: p_map_first(w, E, p_elemwise(w, operator.mul, p_take(w, E, _add_concrete(w, E, (2,) * 6, (1, 11)), 0, [9, 7, 5]), 2.0)), 3)
+    reg("blockwise(twice,x[4,8],y[11,1],adjust_chunks=2n)[a:b]", lambda w, E: p_slice(w, p_blockwise_twice(w, E, source(w, E, "x", (2,), chunks=[(4, 8)]), source(w, E, "y", (2,), chunks=[(11, 1)])), raw_index(E, (F,))), 6)
     reg("map_blocks(first,x3[::-1])", lambda w, E: p_map_first(w, E, p_slice(w, source(w, E, "x", (3,)), raw_index(E, REV))), 2)
     # creation with affine values: slices fold into start/step (Arange._accept_slice)
     reg("arange(start,stop,2;3 blocks)", lambda w, E: p_arange(w, E, 2, 3), 2)
